@@ -67,6 +67,9 @@ func (mbp *multipartBodyProcessor) ProcessRequest(reader io.Reader, v plugintype
 					return err
 				}
 				defer temp.Close()
+				// Register the file before filling it: Close() removes what is listed
+				// here, also when the copy below fails half way.
+				filesTmpNamesCol.Add("", temp.Name())
 				sz, err := io.Copy(temp, p)
 				if err != nil {
 					if !errors.Is(err, io.ErrUnexpectedEOF) {
@@ -76,7 +79,6 @@ func (mbp *multipartBodyProcessor) ProcessRequest(reader io.Reader, v plugintype
 					seenUnexpectedEOF = true
 				}
 				size = sz
-				filesTmpNamesCol.Add("", temp.Name())
 			} else {
 				sz, err := io.Copy(io.Discard, p)
 				if err != nil {
